@@ -2,7 +2,7 @@
    constant-expression grammar of MetaC05Base.v, denotes exactly the DSDL value, without diagnostic, in every data model; the
    floating constant expression denotes the exact rational. *)
 From Coq Require Import List NArith ZArith Bool Lia.
-From Verif Require Import Str MetaC05Base Gen_C05 MetaC05.
+From Verif Require Import Str MetaC05Base MetaC05Rne Gen_C05 MetaC05.
 Import ListNotations.
 Local Open Scope Z_scope.
 
@@ -300,7 +300,7 @@ Lemma float_expr_fraction rf n d : d <> 1 ->
   const_float_expr rf n d =
   if division_rendered n d then [40%N] ++ py_str_int n ++ [46; 48; 32; 47; 32]%N ++ py_str_int d ++ [46; 48; 41]%N else rf (n, d).
 Proof.
-  intro Hd. unfold const_float_expr, filter_literal_float_expr, float_division_expr, division_rendered, division_operand_limit.
+  intro Hd. unfold const_float_expr, filter_literal_float_expr, float_division_expr, division_rendered, division_operand_limit, float_rule.
   cbn [fst snd]. cbv zeta. destruct (Z.eqb_spec d 1); [contradiction|]. reflexivity.
 Qed.
 
@@ -318,14 +318,15 @@ Theorem float_expr_out_of_range_is_oracle : forall rf n d, d <> 1 -> division_re
   const_float_expr rf n d = rf (n, d).
 Proof. intros rf n d Hd H. rewrite float_expr_fraction by assumption. rewrite H. reflexivity. Qed.
 
-(* the operands of a rendered division are floating constants within the range of double *)
-Theorem float_operands_in_range : forall rf n d, 0 < d -> d <> 1 -> division_rendered n d = true ->
+(* the operands of a rendered division are floating constants within the range of double: under the 2^1023 rule because
+   2^1023 < 2^1024 - 2^970; under the exact-operands rule each operand IS a double (float64_one_ulp in MetaC05FltThm.v) *)
+Theorem float_operands_in_range : float_rule = DivIfBelowLimit -> forall rf n d, 0 < d -> d <> 1 -> division_rendered n d = true ->
   const_float_rational rf n d = Some (n, d) /\ float_lit_overflows n d = false /\ operands_in_range (const_float_rational rf n d) = true.
 Proof.
-  intros rf n d Hd Hd1 H. pose proof (float_expr_denotes_rational rf n d Hd (or_intror H)) as HR.
+  intros Hrule rf n d Hd Hd1 H. pose proof (float_expr_denotes_rational rf n d Hd (or_intror H)) as HR.
   assert (Ho : float_lit_overflows n d = false).
   { assert (HL : 2 ^ 1023 < dbl_lit_limit) by (vm_compute; reflexivity).
-    unfold division_rendered, division_operand_limit in H. apply andb_true_iff in H. destruct H as [H1 H2].
+    unfold division_rendered in H. rewrite Hrule in H. unfold division_operand_limit in H. apply andb_true_iff in H. destruct H as [H1 H2].
     apply Z.ltb_lt in H1, H2. unfold float_lit_overflows. apply orb_false_iff. split; apply Z.leb_gt; lia. }
   split; [exact HR|]. split; [exact Ho|]. rewrite HR. unfold operands_in_range. rewrite Ho. reflexivity.
 Qed.
